@@ -685,7 +685,11 @@ func replayScenario(name string, beh []map[string]any, wtCand bool) Scenario {
 						pk = append(pk, Pkt{Type: "pong"})
 					}
 				}
-				post = w.Post(s, pk, ReqOpt{})
+				if ks == "X" { // a body whose declared length is above the limit
+					post = w.StartReq("post", s, ReqOpt{Method: "POST", Body: []byte("4x"), DeclLen: 5000000})
+				} else {
+					post = w.Post(s, pk, ReqOpt{})
+				}
 			case "post.overlap":
 				w.Cause(sid, "error")
 				w.Post(s, []Pkt{{Type: "pong"}}, ReqOpt{}) // refused with 400: never the session's data request
